@@ -299,6 +299,14 @@ def search(ctx, boost=1, focus=()):
     for k in range(n):
         pat = impl.pattern_params(rng, kinds=("circular", "radial_gradient", "background_subtraction", "rgbs"),
                                   rmin=1.5, rmax=15.0)
+        if k % 8 == 7:
+            # a thin ring: inner and outer radius in the same integer cell / less than half a pixel apart
+            base = int(rng.integers(1, 14))
+            r_in = float(np.round(base + rng.uniform(0.05, 0.9), 2))
+            r_out = float(np.round(r_in + rng.uniform(0.03, 0.45), 2))
+            pat = {"kind": ("rgbs", "background_subtraction")[(k // 8) % 2], "radius": r_in, "radius_outer": r_out,
+                   "search": float(np.round(r_out + rng.uniform(0, 4), 2))}
+            ctx.count("thin_ring")
         shape = [int(rng.integers(2, 91)), int(rng.integers(2, 91))]
         if k % 4 == 0:
             shape = [2 * int(np.ceil(pat["search"]))] * 2
